@@ -352,4 +352,33 @@ def T : Arr Int := ⟨3, 3, fun i j => 3 * i + j⟩
 def O : Fld Int := ⟨⟨2, 2, fun i j => 1 + i + 2 * j⟩, 9, 9⟩
 end Ex
 
+/-- a bounding box (contains every member, every side attained) is unique -/
+theorem IsBBox.unique {b b' : Extent} {es : List Extent} (h : IsBBox b es) (h' : IsBBox b' es) : b = b' := by
+  obtain ⟨hc, ⟨e1, m1, a1⟩, ⟨e2, m2, a2⟩, ⟨e3, m3, a3⟩, ⟨e4, m4, a4⟩⟩ := h
+  obtain ⟨hc', ⟨f1, n1, b1⟩, ⟨f2, n2, b2⟩, ⟨f3, n3, b3⟩, ⟨f4, n4, b4⟩⟩ := h'
+  have p1 := hc' e1 m1; have p2 := hc' e2 m2; have p3 := hc' e3 m3; have p4 := hc' e4 m4
+  have q1 := hc f1 n1; have q2 := hc f2 n2; have q3 := hc f3 n3; have q4 := hc f4 n4
+  cases b; cases b'
+  simp only [Extent.mk.injEq]
+  simp only at a1 a2 a3 a4 b1 b2 b3 b4 p1 p2 p3 p4 q1 q2 q3 q4
+  omega
+
+/-- being the bounding box only depends on which extents are members -/
+theorem IsBBox.of_mem_iff {b : Extent} {es es' : List Extent} (hm : ∀ e, e ∈ es ↔ e ∈ es') (h : IsBBox b es) : IsBBox b es' := by
+  obtain ⟨hc, ⟨e1, m1, a1⟩, ⟨e2, m2, a2⟩, ⟨e3, m3, a3⟩, ⟨e4, m4, a4⟩⟩ := h
+  exact ⟨fun e he => hc e ((hm e).mpr he), ⟨e1, (hm e1).mp m1, a1⟩, ⟨e2, (hm e2).mp m2, a2⟩, ⟨e3, (hm e3).mp m3, a3⟩,
+    ⟨e4, (hm e4).mp m4, a4⟩⟩
+
+/-- moving every member by (d0, d1) moves the bounding box by (d0, d1) -/
+theorem IsBBox.shift {b : Extent} {es : List Extent} (h : IsBBox b es) (d0 d1 : Int) :
+    IsBBox (b.shift d0 d1) (es.map fun e => e.shift d0 d1) := by
+  obtain ⟨hc, ⟨e1, m1, a1⟩, ⟨e2, m2, a2⟩, ⟨e3, m3, a3⟩, ⟨e4, m4, a4⟩⟩ := h
+  refine ⟨?_, ⟨e1.shift d0 d1, List.mem_map_of_mem m1, ?_⟩, ⟨e2.shift d0 d1, List.mem_map_of_mem m2, ?_⟩,
+    ⟨e3.shift d0 d1, List.mem_map_of_mem m3, ?_⟩, ⟨e4.shift d0 d1, List.mem_map_of_mem m4, ?_⟩⟩
+  · intro e he
+    obtain ⟨e0, he0, rfl⟩ := List.mem_map.mp he
+    have := hc e0 he0
+    simp only [Extent.shift]; omega
+  all_goals (simp only [Extent.shift]; omega)
+
 end Lentil
